@@ -264,6 +264,12 @@ char *sasl_digest_md5(xmpp_ctx_t *ctx,
         return NULL;
     }
 
+    if (hash_get(table, "nonce") == NULL) {
+        strophe_error(ctx, "SASL", "digest challenge without nonce");
+        hash_release(table);
+        return NULL;
+    }
+
     node = xmpp_jid_node(ctx, jid);
     domain = xmpp_jid_domain(ctx, jid);
 
